@@ -44,6 +44,29 @@ CHECKS = {
              'pool, its queries and the argument/pragma levels.',
         note='Trusted: mc.ref.scriptlang (hand vectors). Escape-free, non-triple-quoted literals only; unterminated '
              'literals/embeds are executed but not judged (counted as undefined_skipped).'),
+    'C01': dict(
+        level='model_checking', design='DESIGN.md §4 C01',
+        technique='stateless deviation-bounded choice-tree exploration (E1) of a template grammar x field values x '
+                  'subset/compression/edition envelopes, explicit-state BFS (E2) to a fixpoint over the operator-register '
+                  'model, full sweep of every bundled Table B definition and operator operand, whole sample corpus; '
+                  'oracle = independent FM-94 reference codec that builds each message (expected result by construction)',
+        text='Every template of the grammar G(k,c) with every choice vector of field values within the deviation bound '
+             'is encoded by the reference model and decoded by the real decoder; labels, values and links must match. '
+             'The operator registers (201/202/203/204/207/208/221) are explored to a fixpoint as a finite state model '
+             'whose every transition is replayed on the real decoder. Exhaustive inside the stated bounds.',
+        note='Trusted: reference model R (hand vectors + agreement with the implementation on >1100 real messages, '
+             'selftest). Envelope of DESIGN 2.4 excluded (ambiguous FM-94 points). Floats within 4 ulp.'),
+    'C02': dict(
+        level='model_checking', design='DESIGN.md §4 C02',
+        technique='the C01 spaces reversed (E1 choice tree over G, E2 operator-register fixpoint, Table B / operand / '
+                  'F-X-Y sweeps, corpus re-encode); uncompressed bytes compared with an independently built message, '
+                  'compressed data read by the reference reader and judged column by column',
+        text='For every template and value vector of the bounded space the real encoder is given the values (character '
+             'values short/long/None as a user would) and must produce the byte-identical message R builds, or - when '
+             'compressed - columns satisfying the statement (base = minimum, width 0 iff all equal, all-ones iff missing, '
+             'exact reconstruction) inside correct framing.',
+        note='Trusted: reference model R. Fields wider than 50 bits with non-zero scale are outside the quantifier. '
+             'Corpus messages whose exact table version is not bundled cannot be re-encoded (encoder has no fall-back).'),
 }
 
 NOT_YET = 'check not built yet in this round (design in DESIGN.md §4); no claim is made'
